@@ -25,7 +25,7 @@ def fuzz(pkg, test, seconds, workers=16, **kw):
 REG = {
     "C01": {
         "level": "exploration",
-        "technique": "property-based testing (rapid): encode/decode round trip against the library decoder and an independent reference decoder, checksum steering by construction, plus an exhaustive length sweep",
+        "technique": "property-based testing (rapid): encode/decode round trip against the library decoder and an independent reference decoder (source header from a fresh or a recycled message object, further frames from the same header, decode by message objects with history), checksum steering by construction, plus an exhaustive length sweep",
         "level_text": "Generated-input exploration: tens of thousands (quick) to millions (thorough) of (source header, reply ID, serial, body) cases per run, biased towards escape-dense bodies, special checksums and the 1000/1023 length edges, each judged by a round trip through two decoders and a delimiter scan. Holds on everything explored; no proof of absence.",
         "level_note": "Trusts the reference frame codec (harness/ref/frame.go) and the Go runtime; source headers are obtained the way library users obtain them (by decoding a reference-built terminal frame).",
         "rule": "rapid-generated (source frame, reply ID, platform serial, body 0..1023 with special-byte mixtures and "
@@ -41,7 +41,7 @@ REG = {
     },
     "C02": {
         "level": "exploration",
-        "technique": "differential testing against an independent reference validator (rapid mutations of valid frames + exhaustive enumeration over a special-byte alphabet); native fuzzing in the thorough tier",
+        "technique": "differential testing against an independent reference validator (rapid mutations of valid frames + exhaustive enumeration over a special-byte alphabet; every valid frame is decoded after 'cousin' frames with related phones and by a message object that decoded a fragmented frame before); native fuzzing in the thorough tier",
         "level_text": "Differential exploration: every generated or enumerated byte string is decoded by the library and by an independent reference validator; accept/reject must agree and on accept every header field and the body are compared. Quick enumerates ~1M frames exhaustively over the special-byte alphabet plus tens of thousands of mutated valid frames; thorough enumerates ~60M and fuzzes.",
         "level_note": "Trusts harness/ref/frame.go as the reading of the standard (tolerating only a raw 0x7D checksum byte, as the property states); which error value is returned is not compared; EncryptMethod may be bit 10 or bits 10..12; phone digits compared modulo leading zeros and only for BCD nibbles.",
         "rule": "mutations (bit flip, substitution, truncation, extension, wrong length field, header cut, attribute bits) of reference-built valid frames of both versions with and without package fields, random strings over a special-heavy alphabet, and the exhaustive enumeration of wire strings over {7D,01,02,00,41,FF}; non-trivial = the reference accepts the frame or the frame is a mutation/enumeration neighbour of a valid frame",
@@ -83,7 +83,7 @@ REG = {
     },
     "C17": {
         "level": "exploration",
-        "technique": "property-based testing (rapid) against an independent JT/T 1078 packet builder, exhaustive truncation enumeration for all 16 data types x 16 marks, differential fuzzing against an independent walker (thorough)",
+        "technique": "property-based testing (rapid) against an independent JT/T 1078 packet builder (fresh Packet per packet, or one Packet value for the stream with too-short attempts in between), exhaustive truncation enumeration for all 16 data types x 16 marks, differential fuzzing against an independent walker (thorough)",
         "level_text": "Streams of 1..8 reference-built packets (all data types 0..15, full-range header fields, payload 0..950 and up to 65535) decoded step by step with a fresh Packet: every field, the payload and the remainder are compared; every truncation point is classified; arbitrary byte strings must be rejected as unqualified.",
         "level_note": "What the remainder is on a 'too short' error is pinned by an existing test and not asserted; reused receivers are C03's.",
         "rule": "rapid streams of reference-built packets, optional cut at any length (biased into the last header), optional trailing bytes, plus arbitrary strings; non-trivial = stream of >= 2 packets with different header lengths, or a cut inside a header, or >= 16 arbitrary bytes without the marker",
@@ -165,7 +165,7 @@ REG = {
     },
     "C14": {
         "level": "exploration",
-        "technique": "model-based property testing (rapid) with a virtual clock: timelines of packets, clock advances and triggers against a reference model of the 5 s re-request / 60 s expiry rules; exhaustive missing-subset enumeration for N <= 8 (10 thorough)",
+        "technique": "model-based property testing (rapid) with a virtual clock: timelines of packets, clock advances and triggers against a reference model of the 5 s re-request / 60 s expiry rules; exhaustive missing-subset enumeration for N <= 8 (10 thorough); socket part with a real 5.4 s silence: seven stalled transfers on one connection after 120 replies (platform serials through 0x7d/0x7e), with and without the sub-package filter, twelve earlier connections that abandoned transfers and four bystanders",
         "level_text": "Timelines (packets, Advance(d) with d on both sides of 5 s and 60 s, heartbeat or half-frame triggers, partial resupply, repeated rounds, two concurrent transfers, N up to 255) are run against the real packageParse with its clock shifted through the hook; after every read the set of 0x8003 messages (decoded by the reference: first packet's serial, count, ascending list) and completed deliveries must equal the model's; expired transfers must be gone.",
         "level_note": "Advance(d) subtracts d from the recorded create/update times, which is equivalent to the wall clock moving forward because the code only compares time.Now() with those fields. Decision points closer than 0.2 s to a deadline are avoided by construction, and a case whose own execution took longer than 60 ms of real time is not judged on timing (tolerance 0.12 s; idle times of 5.25 / 5.5 / 5.9 / 5.999 s and ages of 59.7 / 60.3 s are generated deliberately). Ambiguous readings are avoided by construction: after an advance the next inbound data is never a packet of a pending transfer.",
         "rule": "rapid timelines driven by the same model the oracle uses; non-trivial = some re-request names >= 2 missing packets and an advance crosses 5 s",
@@ -219,7 +219,7 @@ REG = {
     },
     "C06": {
         "level": "exploration",
-        "technique": "model-based testing of conversation histories (rapid scenarios executed against a live service.GoJT808 over loopback TCP in a child process; pure replies-model oracle over the recorded history with one global sequence counter)",
+        "technique": "model-based testing of conversation histories (rapid scenarios executed against a live service.GoJT808 over loopback TCP in a child process; pure replies-model oracle over the recorded history with one global sequence counter); conversations may follow another terminal's aborted connection, contain one-packet and retransmitted sub-packages, 0x0100 bodies of any length, bursts that end in unanswered messages, a lagging writer; plus a 65 600-heartbeat wrap run and an 11 s long-lived connection",
         "level_text": "1..4 concurrent connections each run a generated conversation (every reply-bearing terminal ID, responses, unsupported IDs, both header versions, serials around 0/65535, sub-packaged messages in shuffled order, frames pipelined/coalesced/one per write, matching and non-matching auth codes). The frames each terminal receives must be exactly the model's replies - type, addressing, echoed serial/ID/result, body, order, consecutive platform serials from 0 - and every handled message must have exactly one read callback that finished before its reply reached the terminal and every reply exactly one write callback carrying the bytes sent. Absence of replies is decided by a FIFO sentinel heartbeat, never by sleeping.",
         "level_note": "The reply to a completed sub-packaged transfer is awaited before the terminal sends more (its position among replies of the same read is otherwise unobservable). The read callback sleeps 1 ms in most scenarios so a reply written before the callback would be seen first. Missed deadlines are soft evidence (re-run, 2 of 3). Serial wrap-around over 65536 replies is part of the thorough tier (TestC06Wrap).",
         "rule": "rapid conversations; non-trivial = some connection has >= 3 reply-bearing requests and >= 1 message that must not be answered",
@@ -285,7 +285,7 @@ REG = {
     },
     "C20": {
         "level": "exploration",
-        "technique": "property-based testing (rapid) of the terminal simulator (with 0..3 neighbour simulators alive and used in between) against the frame decoder, the reference decoder and the model parsers; differential test of ExpectedReply against the bytes a live server sends (child process); one 65 540-frame sequence per version for the serial wrap (thorough)",
+        "technique": "property-based testing (rapid) of the terminal simulator (with 0..3 neighbour simulators alive and used in between) against the frame decoder, the reference decoder and the model parsers; differential test of ExpectedReply against the bytes a live server sends (default bodies and custom bodies of 0..40 arbitrary bytes; predicted silence must be real silence) (child process); one 65 540-frame sequence per version for the serial wrap (thorough)",
         "level_text": "For version in {2011, 2013, 2019} x phones of 1..12 (20) digits incl. phones whose template checksum is 0x7E/0x7D x sequences of 1..200 frames over all 24 default commands and custom bodies 0..1023: each frame must be accepted by Decode and by the reference decoder with that command ID, phone (modulo leading zeros), header layout of the version, serial = previous + 1; default bodies parse with the matching model type and re-encode byte-identically; custom bodies come back byte-identical. Live part: simulator frames of the reply-bearing commands sent as the n-th message of a connection must be answered with exactly ExpectedReply(n-1, frame).",
         "level_note": "Phones are decimal strings up to the field width (longer phones are outside the simulator's documented domain).",
         "rule": "rapid (version, phone, command sequence); non-trivial = phone shorter than the field (padding) or escaped template checksum, and >= 2 frames",
